@@ -675,14 +675,29 @@ class Model:
         return self.routeA if which == "A" else self.routeB
 
 
+def func_here_or_imported(repo, rel, name):
+    """the function `name` of module rel, also when it is defined in another
+    module of the repository and imported by `from .x import name`"""
+    f = repo.func(rel, name, missing_ok=True)
+    if f is not None:
+        return f
+    from ..normalize import resolve_from_import
+    r = resolve_from_import(repo, rel, name)
+    if r is not None:
+        f = repo.func(r[0], r[1], missing_ok=True)
+        if f is not None:
+            return f
+    raise AnalysisError(f"anchor vanished: {rel}::{name}")
+
+
 def inplace_sites(repo, m):
     """[(node, base array name, description)]"""
     f = m.f
     sites = []
-    norm = repo.func(EM, "normalize")
+    norm = func_here_or_imported(repo, EM, "normalize")
     norm_ip = inplace_params(norm)
     norm_params = [a.arg for a in norm.args.args]
-    extra = repo.func(EM, "extrapolate_emodulus")
+    extra = func_here_or_imported(repo, EM, "extrapolate_emodulus")
     for n in walk(f):
         if isinstance(n, ast.AugAssign):
             b = base_name(n.target)
@@ -818,8 +833,19 @@ def unit_dimensions(repo):
     (if/elif chain of assertions or a module-level {feature: unit} table
     that the function consults)"""
     f = repo.func(LOAD, "load_mtext")
+    scope, todo = [], [f]
+    while todo:
+        g = todo.pop()
+        if g in scope or len(scope) > 6:
+            continue
+        scope.append(g)
+        for c in walk(g):
+            if isinstance(c, ast.Call) and isinstance(c.func, ast.Name):
+                h = repo.func(LOAD, c.func.id, missing_ok=True)
+                if h is not None:
+                    todo.append(h)
     units = {}
-    for n in walk(f):
+    for n in [x for g in scope for x in walk(g)]:
         if isinstance(n, ast.If) and isinstance(n.test, ast.Compare) \
                 and len(n.test.comparators) == 1 and isinstance(
                     n.test.ops[0], ast.Eq):
@@ -3821,4 +3847,98 @@ TWINS = [
        '            f"Medium {medium} not supported for model '
        '`buyukurganci-2022`!")\n'
        '    _, a, beta = params\n')]),
+    ('refactoring 6: column specs as namedtuples with a unit check helper', LOAD,
+     [('from contextlib import ExitStack\n',
+       'import collections\nfrom contextlib import ExitStack\n'),
+      ('\n@functools.lru_cache()\n',
+       '#: Feature name and unit of one data column, parsed from the header '
+       'line\n'
+       '_ColumnSpec = collections.namedtuple("_ColumnSpec", ["feature", '
+       '"unit"])\n'
+       '\n'
+       '\n'
+       'def _check_column_units(columns):\n'
+       '    """Sanity checks for the units of a list of '
+       ':class:`_ColumnSpec`"""\n'
+       '    for col in columns:\n'
+       '        if col.feature == "deform":\n'
+       '            assert col.unit == ""\n'
+       '        elif col.feature == "area_um":\n'
+       '            assert col.unit == "um^2"\n'
+       '        elif col.feature == "emodulus":\n'
+       '            assert col.unit == "kPa"\n'
+       '        elif col.feature == "volume":\n'
+       '            assert col.unit == "um^3"\n'
+       '        else:\n'
+       '            assert False, "Please add sanity check for {}!".format(\n'
+       '                col.feature)\n'
+       '\n'
+       '\n'
+       'def _parse_column_header(header_line):\n'
+       '    """Return a list of :class:`_ColumnSpec` for a tab-separated '
+       'header"""\n'
+       '    columns = []\n'
+       '    for hh in header_line.strip("# ").split("\\t"):\n'
+       '        if hh.count(" "):\n'
+       '            ft, un = hh.strip().split(" ")\n'
+       '            un = un.strip("[]")\n'
+       '        else:\n'
+       '            ft = hh\n'
+       '            un = ""\n'
+       '        if not dfn.scalar_feature_exists(ft):\n'
+       '            raise ValueError("Scalar feature not known: '
+       '\'{}\'".format(ft))\n'
+       '        columns.append(_ColumnSpec(feature=ft, unit=un))\n'
+       '    return columns\n'
+       '\n'
+       '\n'
+       '@functools.lru_cache()\n'),
+      ('    feats = []\n'
+       '    units = []\n'
+       '    for hh in prev_line.strip("# ").split("\\t"):\n'
+       '        if hh.count(" "):\n'
+       '            ft, un = hh.strip().split(" ")\n'
+       '            un = un.strip("[]")\n'
+       '        else:\n'
+       '            ft = hh\n'
+       '            un = ""\n'
+       '        if not dfn.scalar_feature_exists(ft):\n'
+       '            raise ValueError("Scalar feature not known: '
+       '\'{}\'".format(ft))\n'
+       '        feats.append(ft)\n'
+       '        units.append(un)\n'
+       '    # data\n'
+       '    data = np.loadtxt(path)\n'
+       '\n'
+       '    meta["column features"] = feats\n'
+       '    meta["column units"] = units\n'
+       '\n'
+       '    # sanity checks\n'
+       '    assert meta["channel_width_unit"] == "um"\n'
+       '    assert meta["flow_rate_unit"] == "uL/s"\n'
+       '    assert meta["fluid_viscosity_unit"] == "mPa s"\n'
+       '    for ft, un in zip(feats, units):\n'
+       '        if ft == "deform":\n'
+       '            assert un == ""\n'
+       '        elif ft == "area_um":\n'
+       '            assert un == "um^2"\n'
+       '        elif ft == "emodulus":\n'
+       '            assert un == "kPa"\n'
+       '        elif ft == "volume":\n'
+       '            assert un == "um^3"\n'
+       '        else:\n'
+       '            assert False, "Please add sanity check for '
+       '{}!".format(ft)\n',
+       '    columns = _parse_column_header(prev_line)\n'
+       '    # data\n'
+       '    data = np.loadtxt(path)\n'
+       '\n'
+       '    meta["column features"] = [col.feature for col in columns]\n'
+       '    meta["column units"] = [col.unit for col in columns]\n'
+       '\n'
+       '    # sanity checks\n'
+       '    assert meta["channel_width_unit"] == "um"\n'
+       '    assert meta["flow_rate_unit"] == "uL/s"\n'
+       '    assert meta["fluid_viscosity_unit"] == "mPa s"\n'
+       '    _check_column_units(columns)\n')]),
 ]
